@@ -77,7 +77,7 @@ def segments_search(case):
     import os
     import numpy as np
     from replayers.common import REPO_SRC
-    name = "get_segment_starts_for" if "starts_for" in case else "get_segment_positions"
+    name = "get_segment_masks" if "get_segment_masks" in case else "get_segment_starts_for" if "starts_for" in case else "get_segment_positions"
     path = os.path.join(REPO_SRC, "structure/segments.py")
     fn = [x for x in ast.parse(open(path).read()).body if isinstance(x, ast.FunctionDef) and x.name == name]
     ns = {"np": np}
@@ -103,6 +103,8 @@ def segments_search(case):
                     return True, f"{call} = {got} although an index names no atom of the {n}-atom array (ValueError expected)"
                 pos = [max(p for p in range(len(starts) - 1) if starts[p] <= i) for i in idx]
                 want = pos if name == "get_segment_positions" else [starts[p] for p in pos]
+                if name == "get_segment_masks":
+                    want = [[starts[p] <= c < starts[p + 1] for c in range(n)] for p in pos]
                 if got != want:
                     return True, f"{call} = {got}, per-atom recomputation gives {want}"
     return False, f"{tried} (starts, indices) pairs over arrays of 0..4 atoms all agree with the per-atom recomputation"
